@@ -122,6 +122,58 @@ Proof.
     exact (refs_linked _ _ _ R Hc).
 Qed.
 
+(* an accepted member list: the kernel rules held on a map that contains every
+   member, whether its body was stored or cached *)
+Lemma snapshot_tx_rules_final : forall mainnet s fin last tok ms found,
+  snapshot_tx_rules mainnet s fin last tok found ms = Ok tt -> ms <> [] ->
+  exists found',
+    validate_kernel_snapshot mainnet s found' fin last tok = Ok tt /\
+    (forall m, In m ms -> In (m_hash m, m_tx m) found') /\
+    (forall e, In e found -> In e found') /\
+    (forall m0 r, ms = m0 :: r -> r = [] -> found' = (m_hash m0, m_tx m0) :: found).
+Proof.
+  intros mainnet s fin last tok. induction ms as [|m r IH]; intros found H Hne; [contradiction|].
+  cbn [snapshot_tx_rules] in H.
+  destruct (negb (m_stored m) && negb (m_valid m)); [discriminate|].
+  destruct (validate_kernel_snapshot mainnet s ((m_hash m, m_tx m) :: found) fin last tok) as [[]| |] eqn:V;
+    cbn [bind] in H; try discriminate.
+  destruct r as [|m2 r2].
+  - exists ((m_hash m, m_tx m) :: found). split; [exact V|]. split; [|split].
+    + intros x [<-|[]]. left. reflexivity.
+    + intros e He. right. exact He.
+    + intros m0 r0 E _. injection E as <- _. reflexivity.
+  - destruct (IH _ H) as (f' & V' & A & B & _); [discriminate|].
+    exists f'. split; [exact V'|]. split; [|split].
+    + intros x [<-|Hx]; [apply B; left; reflexivity|apply A; exact Hx].
+    + intros e He. apply B. right. exact He.
+    + intros m0 r0 E Er. injection E as _ <-. discriminate Er.
+Qed.
+
+Lemma c28_members_batchable : forall mainnet s fin last tok ms,
+  snapshot_tx_rules mainnet s fin last tok [] ms = Ok tt ->
+  (1 < length (ks_txs s))%nat ->
+  forall m, In m ms -> is_batchable (k_type (m_tx m)) = true.
+Proof.
+  intros mainnet s fin last tok ms H L m Hm.
+  destruct (snapshot_tx_rules_final _ _ _ _ _ _ _ H) as (f' & V & A & _ & _).
+  { intro E. subst ms. destruct Hm. }
+  exact (c28_batch _ _ _ _ _ _ V L _ _ (A m Hm)).
+Qed.
+
+Lemma c28_member_alone_linked : forall mainnet s fin last tok m,
+  snapshot_tx_rules mainnet s fin last tok [] [m] = Ok tt ->
+  (fin && mainnet && (ks_ts s <? Consts.KsConsensusReferenceForkAt)) = false ->
+  ks_txs s = [m_hash m] -> is_consensus_class (k_type (m_tx m)) = true ->
+  exists ltx, cs_txs last = [ltx] /\
+    (ltx = k_hash (m_tx m) \/ (hd_error (k_refs (m_tx m)) = Some ltx /\ cs_ts last < ks_ts s)).
+Proof.
+  intros mainnet s fin last tok m H Hex Htx Hc.
+  destruct (snapshot_tx_rules_final _ _ _ _ _ _ _ H) as (f' & V & _ & _ & E); [discriminate|].
+  rewrite (E m [] eq_refl eq_refl) in V.
+  destruct (c28_alone_linked _ _ _ _ _ _ (m_hash m) (m_tx m) V Hex (or_introl eq_refl) Hc) as [_ L].
+  apply (L (m_hash m) Htx). cbn. rewrite N.eqb_refl. reflexivity.
+Qed.
+
 (* ---- the recorded chain ---------------------------------------------------- *)
 
 Lemma chain_split : forall h, chain h -> exists pre lst, h = pre ++ [lst].
